@@ -39,6 +39,8 @@ FAULTS = [
     {"np": 1, "trig": "T", "rays": (1, 1), "waves": (1, 1), "fault": "no_rays"},
     {"np": 2, "trig": "T", "rays": (1, 1), "waves": (1, 1), "fault": "no_trigger"},
     {"np": 1, "trig": "T", "rays": (1, 1), "waves": (2, 1), "fault": "no_global"},
+    # a numpy boolean as the trigger: the writer may take it for its truth value or refuse it -- but cleanly either way
+    {"np": 2, "trig": "T", "rays": (2, 1), "waves": (1, 1), "fault": "np_bool_trigger"},
 ]
 REQ = [True, False, "particles", "triggers", "antenna_triggers", "waveforms", "rays", "noise",
        ["particles", "triggers", "antenna_triggers", "waveforms", "rays", "noise"]]
@@ -114,6 +116,8 @@ def run_history(config, n_ant, history, tmpdir):
                 fails.append(("add-exception", "add #%d raised %s" % (len(outcomes), src.short_tb(e))))
                 outcomes.append("crashed")
                 break
+            if spec.get("fault") == "np_bool_trigger":
+                continue            # accepted (recorded as its truth value) and rejected (nothing recorded) are both fine
             want_reject = spec.get("fault") is not None and _fault_applies(spec["fault"], config)
             if want_reject and outcomes[-1] != "rejected":
                 fails.append(("fault-accepted", "add #%d with fault %r was accepted" % (len(outcomes) - 1, spec["fault"])))
